@@ -268,6 +268,7 @@ def stream_obj(eng, v, kind):
         return d
 
     def s_read(eng, obj, args, kwargs):
+        gh["stream_reads"] = gh.get("stream_reads", 0) + 1
         eng.prove("C11:lib:read-on-an-open-stream", not gh["stream_closed"], props=P11)
         nb = args[0] if args else None
         rem = v.N - gh["stream_pos"]
@@ -340,6 +341,8 @@ def unit_file_read(sess, ctx):
             if kind == "stdin":
                 eng.run_function(ctx.fi(QI + "StdinAudioSource.close"), [], {}, me)
                 eng.prove("C11:stdin-close-closes", Not(B(h["_is_open"])), props=P11)
+                # closing must not wait for the producer: no read on the (possibly live) stream
+                eng.prove("C11:stdin-close-does-not-read-the-stream", eng.st.ghost.get("stream_reads", 0) == 0, props=P11 + ("C14",))
             else:
                 eng.run_function(ctx.fi(QI + "FileAudioSource.close"), [], {}, me)
                 eng.prove("C11:file-close-releases-the-handle", h["_audio_stream"] is None and
@@ -353,6 +356,13 @@ def unit_file_read(sess, ctx):
             return None
         eng.prove("C11:%s-read:not-open-raises" % kind, is_open, props=P11)
         prove_read_result(eng, v, size, res, imul(eng.st.ghost["stream_pos"], v.bps), "C11:%s-read" % kind)
+        # a read -- also one that finds nothing left -- leaves the source open: "once nothing remains read returns None"
+        # on EVERY further call
+        if kind == "stdin":
+            still = z3.is_true(z3.simplify(B(h["_is_open"]))) if not isinstance(h["_is_open"], bool) else h["_is_open"]
+        else:
+            still = h["_audio_stream"] is stream and not eng.st.ghost["stream_closed"]
+        eng.prove("C11:%s-read:source-stays-open" % kind, still, props=P11 + ("C10",))
         return None
     sess.run_unit(u, eng, run_)
     return u
